@@ -44,6 +44,9 @@ class Engine:
         self.solver.set("timeout", timeout_ms)
         self.solver.set("random_seed", seed % (2**31))
         self.timeout_ms = timeout_ms
+        self.seed = seed
+        self.portfolio = None     # (n_probes, probe_ms): short attempts under other random seeds before/after the full-length attempt
+        self.n_portfolio_hits = 0
         self.max_paths = max_paths
         self.prefix = []
         self.trace = []
@@ -70,16 +73,38 @@ class Engine:
             self.solver.push()
             try:
                 self.solver.add(*extra)
-                r = self.solver.check()
+                r = self._check_portfolio()
                 self._last_model = self.solver.model() if r == z3.sat else None
             finally:
                 self.solver.pop()
         else:
-            r = self.solver.check()
+            r = self._check_portfolio()
             self._last_model = self.solver.model() if r == z3.sat else None
         self.t_solver += time.time() - t
         self.n_checks += 1
         return r
+
+    def _check_portfolio(self):
+        """z3's verdict for the current assertions.  With a portfolio the query is first tried briefly under the obligation's seed and
+        n-1 other random seeds (a sat/unsat answer under any seed is a verdict; only `unknown` is retried), then once at full length."""
+        if not self.portfolio:
+            return self.solver.check()
+        n, probe_ms = self.portfolio
+        try:
+            for k in range(n):
+                self.solver.set("timeout", int(probe_ms))
+                self.solver.set("random_seed", (self.seed + 7919 * k) % (2**31))
+                r = self.solver.check()
+                if r != z3.unknown:
+                    if k:
+                        self.n_portfolio_hits += 1
+                    return r
+            self.solver.set("timeout", self.timeout_ms)
+            self.solver.set("random_seed", (self.seed + 104729) % (2**31))
+            return self.solver.check()
+        finally:
+            self.solver.set("timeout", self.timeout_ms)
+            self.solver.set("random_seed", self.seed % (2**31))
 
     def add(self, *cs):
         for c in cs:
